@@ -74,47 +74,37 @@ Print Assumptions C01_oer_encode_decode.
 (* ===================================================================== *)
 (* Extensibility layer (coq/Rt/Ext.v, ExtProofs.v; notes/design/EXT.md): extensible SEQUENCE
    { root, ..., additions } and extensible CHOICE { root, ..., extension alternatives } over the
-   base algebra.  std = true: X.691 / X.696; std = false: what the C does. *)
+   base algebra.  std is the switch of the base codec model, handed down to the components
+   (std = false: what the C does there); the framing of the extensions has one reading, the C's
+   and the standards' alike since the repairs of uper_put_nslength, uper_put_nsnnwn,
+   uper_open_type_skip and oer_open_type_skip. *)
 From A1 Require Import Rt.Ext Rt.ExtFormat Rt.ExtProofs.
 
-(* -- unaligned PER: round trip.  [ext_count_ok]: under X.691 any count; for the C at most 64
-      additions / extension alternatives (refuted beyond: below) -- *)
+(* -- unaligned PER: round trip, any number of additions / extension alternatives the encoder accepts
+      (wf_ety_uper bounds the extension alternatives by 65536: uper_get_nsnnwn reads two octets) -- *)
 Theorem C01_ext_uper_roundtrip_in_stream : forall std t v bits rest,
-  wf_ety_uper t = true -> wt_ety_uper std t v -> ext_count_ok std t ->
+  wf_ety_uper t = true -> wt_ety_uper std t v ->
   ext_uper std t v = Some bits -> ext_uper_dec std t (bits ++ rest) = Some (v, rest).
 Proof. exact ext_uper_roundtrip_in_stream. Qed.
 Print Assumptions C01_ext_uper_roundtrip_in_stream.
 
 Theorem C01_ext_uper_roundtrip : forall std t v bytes,
-  wf_ety_uper t = true -> wt_ety_uper std t v -> ext_count_ok std t ->
+  wf_ety_uper t = true -> wt_ety_uper std t v ->
   ext_uper_encode std t v = Some bytes ->
   ext_uper_decode std t bytes = Some (v, zlen bytes) /\ 1 <= zlen bytes.
 Proof. exact ext_uper_decode_roundtrip. Qed.
 Print Assumptions C01_ext_uper_roundtrip.
 
-Theorem C01_ext_uper_roundtrip_c_refuted :
-  exists t v bits, wf_ety_uper t = true /\ wt_ety_uper false t v /\
-    ext_uper false t v = Some bits /\ ext_uper_dec false t bits <> Some (v, []).
-Proof. exact ext_uper_roundtrip_c_refuted. Qed.
-Print Assumptions C01_ext_uper_roundtrip_c_refuted.
-
-Theorem C01_ext_uper_choice_roundtrip_c_refuted :
-  exists t v bits, wf_ety_uper t = true /\ wt_ety_uper false t v /\
-    ext_uper false t v = Some bits /\ ext_uper_dec false t bits <> Some (v, []) /\
-    ext_uper false t v <> ext_uper true t v.
-Proof. exact ext_uper_choice_roundtrip_c_refuted. Qed.
-Print Assumptions C01_ext_uper_choice_roundtrip_c_refuted.
-
-(* -- OER: round trip, for the C's reader and the X.696 reader alike -- *)
-Theorem C01_ext_oer_roundtrip_in_stream : forall std t v bs rest,
+(* -- OER: round trip -- *)
+Theorem C01_ext_oer_roundtrip_in_stream : forall t v bs rest,
   wf_ety_oer t = true -> wt_ety_oer t v -> ext_oer t v = Some bs ->
-  ext_oer_dec std t (bs ++ rest) = Some (v, rest).
+  ext_oer_dec t (bs ++ rest) = Some (v, rest).
 Proof. exact ext_oer_roundtrip_in_stream. Qed.
 Print Assumptions C01_ext_oer_roundtrip_in_stream.
 
-Theorem C01_ext_oer_roundtrip : forall std t v bs,
+Theorem C01_ext_oer_roundtrip : forall t v bs,
   wf_ety_oer t = true -> wt_ety_oer t v -> ext_oer t v = Some bs ->
-  ext_oer_decode std t bs = Some (v, zlen bs).
+  ext_oer_decode t bs = Some (v, zlen bs).
 Proof. exact ext_oer_decode_roundtrip. Qed.
 Print Assumptions C01_ext_oer_roundtrip.
 
@@ -132,54 +122,20 @@ Proof. exact ext_ber_decode_roundtrip. Qed.
 Print Assumptions C01_ext_ber_roundtrip.
 
 (* -- forward compatibility: a reader that knows only the first k additions gets the known part back and
-      leaves exactly what followed.  UPER/OER: provided every unknown present addition is one the reader's skip
-      routine gets over ([uper_skippable] / [oer_skippable]: anything under the standards; for the C only
-      encodings of 3n octets or the octet 00 / only empty encodings) -- *)
+      leaves exactly what followed; every unknown present addition is skipped, whatever its size -- *)
 Theorem C01_ext_uper_forward_compat : forall std tg root adds rvs avs bits rest k,
   wf_ety_uper (ESeq tg root adds) = true -> wt_ety_uper std (ESeq tg root adds) (EVSeq rvs avs) ->
-  ext_count_ok std (ESeq tg root adds) ->
   ext_uper std (ESeq tg root adds) (EVSeq rvs avs) = Some bits ->
-  all_enc (uper_encode std) (fun c => uper_skippable std c = true) (skipn k adds) (skipn k avs) ->
   ext_uper_dec std (truncate_ty k (ESeq tg root adds)) (bits ++ rest) = Some (truncate_val k (EVSeq rvs avs), rest).
 Proof. exact ext_uper_forward_compat. Qed.
 Print Assumptions C01_ext_uper_forward_compat.
 
-Theorem C01_ext_uper_forward_compat_std : forall tg root adds rvs avs bits rest k,
-  wf_ety_uper (ESeq tg root adds) = true -> wt_ety_uper true (ESeq tg root adds) (EVSeq rvs avs) ->
-  ext_uper true (ESeq tg root adds) (EVSeq rvs avs) = Some bits ->
-  ext_uper_dec true (truncate_ty k (ESeq tg root adds)) (bits ++ rest) = Some (truncate_val k (EVSeq rvs avs), rest).
-Proof. exact ext_uper_forward_compat_std. Qed.
-Print Assumptions C01_ext_uper_forward_compat_std.
-
-Theorem C01_ext_uper_forward_compat_c_refuted :
-  exists t v k bits, wf_ety_uper t = true /\ wt_ety_uper false t v /\ ext_uper false t v = Some bits /\
-    ext_uper true t v = Some bits /\
-    ext_uper_dec false (truncate_ty k t) bits = None /\
-    ext_uper_dec true (truncate_ty k t) bits = Some (truncate_val k v, []).
-Proof. exact ext_uper_forward_compat_c_refuted. Qed.
-Print Assumptions C01_ext_uper_forward_compat_c_refuted.
-
-Theorem C01_ext_oer_forward_compat : forall std tg root adds rvs avs bs rest k,
+Theorem C01_ext_oer_forward_compat : forall tg root adds rvs avs bs rest k,
   wf_ety_oer (ESeq tg root adds) = true -> wt_ety_oer (ESeq tg root adds) (EVSeq rvs avs) ->
   ext_oer (ESeq tg root adds) (EVSeq rvs avs) = Some bs ->
-  all_enc oer (oer_skippable std) (skipn k adds) (skipn k avs) ->
-  ext_oer_dec std (truncate_ty k (ESeq tg root adds)) (bs ++ rest) = Some (truncate_val k (EVSeq rvs avs), rest).
+  ext_oer_dec (truncate_ty k (ESeq tg root adds)) (bs ++ rest) = Some (truncate_val k (EVSeq rvs avs), rest).
 Proof. exact ext_oer_forward_compat. Qed.
 Print Assumptions C01_ext_oer_forward_compat.
-
-Theorem C01_ext_oer_forward_compat_std : forall tg root adds rvs avs bs rest k,
-  wf_ety_oer (ESeq tg root adds) = true -> wt_ety_oer (ESeq tg root adds) (EVSeq rvs avs) ->
-  ext_oer (ESeq tg root adds) (EVSeq rvs avs) = Some bs ->
-  ext_oer_dec true (truncate_ty k (ESeq tg root adds)) (bs ++ rest) = Some (truncate_val k (EVSeq rvs avs), rest).
-Proof. exact ext_oer_forward_compat_std. Qed.
-Print Assumptions C01_ext_oer_forward_compat_std.
-
-Theorem C01_ext_oer_forward_compat_c_refuted :
-  exists t v k bs, wf_ety_oer t = true /\ wt_ety_oer t v /\ ext_oer t v = Some bs /\
-    ext_oer_dec false (truncate_ty k t) bs <> Some (truncate_val k v, []) /\
-    ext_oer_dec true (truncate_ty k t) bs = Some (truncate_val k v, []).
-Proof. exact ext_oer_forward_compat_c_refuted. Qed.
-Print Assumptions C01_ext_oer_forward_compat_c_refuted.
 
 Theorem C01_ext_ber_forward_compat : forall tg root adds rvs avs bs rest k,
   wf_ety_der (ESeq tg root adds) = true -> wt_ety_der (ESeq tg root adds) (EVSeq rvs avs) = true ->
@@ -187,3 +143,40 @@ Theorem C01_ext_ber_forward_compat : forall tg root adds rvs avs bs rest k,
   ext_ber_dec (ESeq tg root (firstn k adds)) (bs ++ rest) = Some (EVSeq rvs (firstn k avs), rest).
 Proof. exact ext_ber_seq_fwd. Qed.
 Print Assumptions C01_ext_ber_forward_compat.
+
+(* -- non-vacuity: the inputs that used to refute the statements above (65 additions, extension alternative
+      index 64, an unknown one-octet addition) satisfy their hypotheses and come back -- *)
+Theorem C01_ext_uper_seq65_example :
+  wf_ety_uper wit_seq65 = true /\ wt_ety_uper false wit_seq65 wit_val65 /\
+  exists bits, ext_uper false wit_seq65 wit_val65 = Some bits /\
+    ext_uper_dec false wit_seq65 bits = Some (wit_val65, []) /\
+    firstn 12 bits = [true; true; true; false; true; false; false; false; false; false; true; true].
+Proof. exact ext_uper_seq65_example. Qed.
+Print Assumptions C01_ext_uper_seq65_example.
+
+Theorem C01_ext_uper_choice66_example :
+  wf_ety_uper wit_choice66 = true /\ wt_ety_uper false wit_choice66 wit_alt64 /\
+  exists bits, ext_uper false wit_choice66 wit_alt64 = Some bits /\
+    ext_uper_dec false wit_choice66 bits = Some (wit_alt64, []) /\
+    firstn 18 bits = [true; true; false; false; false; false; false; false; false; true;
+                      false; true; false; false; false; false; false; false].
+Proof. exact ext_uper_choice66_example. Qed.
+Print Assumptions C01_ext_uper_choice66_example.
+
+Theorem C01_ext_forward_compat_example :
+  (exists bits, ext_uper false wit_seq2 wit_val2 = Some bits /\
+     ext_uper_dec false (truncate_ty 1 wit_seq2) bits = Some (truncate_val 1 wit_val2, [])) /\
+  (exists bs, ext_oer wit_seq2 wit_val2 = Some bs /\
+     ext_oer_dec (truncate_ty 1 wit_seq2) bs = Some (truncate_val 1 wit_val2, [])).
+Proof. exact ext_forward_compat_example. Qed.
+Print Assumptions C01_ext_forward_compat_example.
+
+(* the OER preamble of a SEQUENCE with nine OPTIONAL root members has two octets; the extension bit is the first bit
+   of the first (C02_ext_oer_preamble_format), the value with an addition comes back (SEQUENCE_decode_oer used to
+   look for the bit in the second octet: finding C01-ext-oer-preamble-over-8-optionals, fixed) *)
+Theorem C01_ext_oer_preamble9_example :
+  wf_ety_oer wit_seq_p9 = true /\ wt_ety_oer wit_seq_p9 wit_val_p9 /\
+  ext_oer wit_seq_p9 wit_val_p9 = Some [128; 0; 255; 2; 7; 128; 1; 255] /\
+  ext_oer_dec wit_seq_p9 [128; 0; 255; 2; 7; 128; 1; 255] = Some (wit_val_p9, []).
+Proof. exact ext_oer_preamble9_example. Qed.
+Print Assumptions C01_ext_oer_preamble9_example.
